@@ -176,26 +176,34 @@ def m_to_writer(ex, st, callee, args, dty, site):
     return r
 
 
+def _as_node(ex, v):
+    if isinstance(v, Opaque):
+        n = Node(ex.ctx.fresh_name("opq"), None)
+        n.val = v
+        return n
+    return v
+
+
 def m_try_branch(ex, st, callee, args, dty, site):
-    r = args[0]
+    r = _as_node(ex, args[0])
     if not isinstance(r, Node):
         return NotImplemented
     out = Node(ex.ctx.fresh_name("cf"), "ControlFlow")
     d = Node(out.name + ".discr", "isize")
     d.val = ex.discr_of(r)
     out.kids["discr"] = d
-    out.kids[("Continue", 0)] = ex.child(r, ("Ok", 0), None).clone()
+    out.kids[("Continue", 0)] = ex.child(r, ("Ok", 0), "T").clone()
     res = Node(out.name + ".residual", "Result<Infallible,E>")
     rd = Node(res.name + ".discr", "isize")
     rd.val = z3.BitVecVal(1, 64)
     res.kids["discr"] = rd
-    res.kids[("Err", 0)] = ex.child(r, ("Err", 0), None).clone()
+    res.kids[("Err", 0)] = ex.child(r, ("Err", 0), "E").clone()
     out.kids[("Break", 0)] = res
     return out
 
 
 def m_try_branch_option(ex, st, callee, args, dty, site):
-    o = args[0]
+    o = _as_node(ex, args[0])
     if not isinstance(o, Node):
         return NotImplemented
     out = Node(ex.ctx.fresh_name("cf"), "ControlFlow")
